@@ -431,6 +431,49 @@ func c11pScenarios(r *mon.R, mode string) []*c11pScn {
 			}
 		}
 	}
+	// resharing with a growing threshold (oldT < newT): coalitions of k = oldT .. newN-newT faulty NEW holders all falsely
+	// complaining about the same honest dealer(s) - between oldT and newT-1 complaints must not disqualify it
+	for _, sh := range []c11pShape{
+		c11pReshare("grow", 3, 2, 3, 2, 3), c11pReshare("grow", 3, 2, 3, 3, 4), c11pReshare("grow", 4, 3, 4, 3, 4),
+		c11pReshare("disjoint", 3, 2, 0, 5, 3), c11pReshare("overlap", 3, 2, 2, 3, 3), c11pReshare("newt", 5, 3, 5, 0, 4),
+	} {
+		sh := sh
+		var holders []int // seats holding a new share, newcomers first
+		for p, m := range sh.members {
+			if m[0] < 0 && m[1] >= 0 {
+				holders = append(holders, p)
+			}
+		}
+		for p, m := range sh.members {
+			if m[0] >= 0 && m[1] >= 0 {
+				holders = append(holders, p)
+			}
+		}
+		budget := sh.newN() - sh.newT
+		for k := 1; k <= budget && k <= len(holders); k++ {
+			for _, target := range []string{"one", "all"} {
+				for rot := 0; rot < 2 && rot < len(holders); rot++ {
+					f := map[int]c11pFault{}
+					var seats []int
+					for i := 0; i < k; i++ {
+						seats = append(seats, holders[(rot*k+i)%len(holders)])
+					}
+					if !c11pFaultBudgetOK(&sh, seats) {
+						continue
+					}
+					for _, p := range seats {
+						f[p] = c11pFault{kind: "resp-false-complaint", target: target}
+					}
+					if len(f) != k {
+						continue
+					}
+					for _, fast := range []bool{false, true} {
+						add(sh, fast, f, 1+k+rot, "threshold-gap")
+					}
+				}
+			}
+		}
+	}
 	// resharing, larger groups: sampled shapes and fault assignments
 	for k := 0; k < sampReshare; k++ {
 		sh := c11pRandomShape(g, 3, maxN)
